@@ -10,6 +10,7 @@ import (
 	orgpb "github.com/google/fhir/go/proto/google/fhir/proto/r4/core/resources/organization_go_proto"
 	ppb "github.com/google/fhir/go/proto/google/fhir/proto/r4/core/resources/patient_go_proto"
 	perpb "github.com/google/fhir/go/proto/google/fhir/proto/r4/core/resources/person_go_proto"
+	qrpb "github.com/google/fhir/go/proto/google/fhir/proto/r4/core/resources/questionnaire_response_go_proto"
 	"github.com/verily-src/fhirpath-go/fhirpath/verifh/ftab"
 	"google.golang.org/protobuf/proto"
 	"google.golang.org/protobuf/reflect/protoreflect"
@@ -517,6 +518,46 @@ func init() {
 							}
 						}
 					}
+				}},
+				{Name: "typeless-expressions-across-types", N: c10Count(len(c04TypelessAlphabet()), 3), Note: fmt.Sprintf("all sequences of length <=3 over %d evaluations of compiled expressions whose paths name no resource type (contact.name.family, item.linkId, ...) on Patient, Organization, Person, Questionnaire and QuestionnaireResponse - backbone components of different resources share their short names -: each result equals that of an expression compiled for the occasion", len(c04TypelessAlphabet())), Run: func(i int, r *core.Rec) {
+					al := c04TypelessAlphabet()
+					shared := map[string]*fhirpath.Expression{}
+					var hist []string
+					for _, k := range c10Seq(i, len(al)) {
+						ev := al[k]
+						hist = append(hist, ev.src+" on "+ev.name)
+						if shared[ev.src] == nil {
+							e, err := fhirpath.Compile(ev.src)
+							if err != nil {
+								r.Fail("typeless-history|does-not-compile", core.W{"src": ev.src})
+								return
+							}
+							shared[ev.src] = e
+						}
+						run := func(e *fhirpath.Expression) string {
+							var out string
+							if pi := core.Try(func() {
+								c, err := e.Evaluate([]fhir.Resource{ev.mk()})
+								out = lib.ShowColl(c)
+								if err != nil {
+									out = "ERROR"
+								}
+							}); pi != nil {
+								out = "PANIC " + pi.Key()
+							}
+							r.Eval()
+							return out
+						}
+						got := run(shared[ev.src])
+						fe, _ := fhirpath.Compile(ev.src)
+						want := run(fe)
+						if got != want {
+							r.Fail("typeless-history|result-depends-on-history", core.W{"history": hist, "got": core.Short(got, 200), "freshly_compiled": core.Short(want, 200)})
+							return
+						}
+					}
+					r.State("typeless-history")
+					r.Nontrivial(strings.Join(hist, ";"))
 				}},
 				{Name: "operand-rebinding", N: len(c04OperandPrograms), Note: fmt.Sprintf("%d operator, indexer and type-test programs whose operands are environment variables: one compiled expression under every ordered pair of 6 bindings (then the first again); each result equals that of an expression compiled for the occasion", len(c04OperandPrograms)), Run: func(i int, r *core.Rec) {
 					src := c04OperandPrograms[i]
@@ -1131,6 +1172,42 @@ func c04PatchOps() []c04PatchOp {
 		{"Add id on contact name of Organization", "contact[0].name", org, add("text", func() fhir.Base { return fhir.String("t") })},
 		{"Add text on contact name of Patient", "contact[0].name", patient, add("text", func() fhir.Base { return fhir.String("t") })},
 	}
+}
+
+type c04Typeless struct {
+	src, name string
+	mk        func() fhir.Resource
+}
+
+func c04TypelessAlphabet() []c04Typeless {
+	pat := func() fhir.Resource {
+		p := lib.Patient()
+		p.Contact = []*ppb.Patient_Contact{{Name: &dtpb.HumanName{Family: fhir.String("Pat")}, Telecom: []*dtpb.ContactPoint{{Value: fhir.String("p-tel")}}}}
+		return p
+	}
+	org := func() fhir.Resource {
+		return &orgpb.Organization{Id: fhir.ID("o1"), Contact: []*orgpb.Organization_Contact{{Name: &dtpb.HumanName{Family: fhir.String("Org")}, Telecom: []*dtpb.ContactPoint{{Value: fhir.String("o-tel")}}}}, Telecom: []*dtpb.ContactPoint{{Value: fhir.String("o-main")}}}
+	}
+	per := func() fhir.Resource {
+		return &perpb.Person{Id: fhir.ID("pe1"), Name: []*dtpb.HumanName{{Family: fhir.String("Per")}}, Telecom: []*dtpb.ContactPoint{{Value: fhir.String("pe-tel")}}, Link: []*perpb.Person_Link{{Target: &dtpb.Reference{Reference: &dtpb.Reference_Uri{Uri: fhir.String("Patient/1")}}}}}
+	}
+	qst := func() fhir.Resource { return lib.Questionnaire() }
+	qr := func() fhir.Resource {
+		return &qrpb.QuestionnaireResponse{Id: fhir.ID("qr1"), Item: []*qrpb.QuestionnaireResponse_Item{{LinkId: fhir.String("r1"), Text: fhir.String("answer one"), Item: []*qrpb.QuestionnaireResponse_Item{{LinkId: fhir.String("r1.1")}}}}}
+	}
+	var out []c04Typeless
+	for _, src := range []string{"contact.name.family", "contact.telecom.value", "name.family", "telecom.value", "item.linkId", "item.item.linkId", "item.text", "link.exists()", "id"} {
+		for _, res := range []struct {
+			name string
+			mk   func() fhir.Resource
+		}{{"Patient", pat}, {"Organization", org}, {"Person", per}, {"Questionnaire", qst}, {"QuestionnaireResponse", qr}} {
+			// keep the pairs whose first step exists on the type (the others fail the same way every time: nothing to learn)
+			if lib.Run(src, []fhir.Resource{res.mk()}, nil).Err == nil {
+				out = append(out, c04Typeless{src, res.name, res.mk})
+			}
+		}
+	}
+	return out
 }
 
 var c04OperandPrograms = []string{
